@@ -48,7 +48,7 @@ def c14(work, tier, seed, replay):
         has_restart = any(e["a"] == "restart" for e in s["events"])
         store = "sqlfile" if (has_restart or j % 2 == 0) else "inmem"
         types = ["sumdb", "tiles"] if j % 3 else ["tiles", "tiles"]
-        jobs.append({"id": "o%d" % j, "store": store, "sigma": SIGMAS[sig_names[j % len(sig_names)]], "types": types, "events": s["events"]})
+        jobs.append({"id": "o%d" % j, "store": store, "sigma": SIGMAS[sig_names[j % len(sig_names)]], "types": types, "events": s["events"], "partial": j % 2 == 0})
     # long growth chains inside ONE process (no restart), every log stepping through sizes around the tile boundaries:
     # behaviours of OmniRun with MaxSize = 8 (judged like the others)
     CH = [0, 5, 200, 255, 256, 257, 300, 65536, 65537]
@@ -61,6 +61,12 @@ def c14(work, tier, seed, replay):
         if j == 2:
             evs = [e for e in evs if e["n"] in (3, 4, 6, 8)]       # bigger jumps: 5 -> 255 -> 256 -> 300 -> 65537
         chains.append({"id": "chain%d" % j, "store": "sqlfile" if j == 1 else "inmem", "sigma": CH, "types": types, "events": evs})
+    # outages during which the log GROWS: total (every request fails) and partial (the checkpoint is still served, tiles / proofs fail)
+    for j, (types, partial) in enumerate(((["sumdb", "tiles"], True), (["tiles", "sumdb"], True), (["sumdb", "tiles"], False))):
+        evs = []
+        for l in ("l1", "l2"):
+            evs += [{"a": "grow", "l": l, "b": 0, "n": 2}, {"a": "outage", "l": l, "b": 0, "n": 0}, {"a": "grow", "l": l, "b": 0, "n": 3}, {"a": "recover", "l": l, "b": 0, "n": 0}]
+        chains.append({"id": "outage%d" % j, "store": "inmem", "sigma": SIGMAS["tile"], "types": types, "events": evs, "partial": partial})
     # a log whose first published checkpoint has size 0 (the known finding F1 is expected here)
     jobs.append({"id": "ozero", "store": "inmem", "sigma": SIGMAS["tile"], "types": ["sumdb", "tiles"], "start": 0,
                  "events": [{"a": "grow", "l": "l1", "b": 0, "n": 2}]})
@@ -274,7 +280,7 @@ def c19(work, tier, seed, replay):
     rep.add_model("Totality (5 feeders x 2 witness states x 19 checkpoint classes x 9 data classes)", r)
     scens = [json.loads(x) for x in sorted(set(r.prints("HOSTILE")))]
     if tier == "quick":
-        must = [s for s in scens if (s["cp"].startswith("size2") and s["data"] == "valid") or (s["feeder"] == "rekor" and (s["cp"].startswith("json-") or s["data"].startswith("json-")) and s["data"] in ("valid", "json-null", "json-odd") and s["cp"] in ("valid", "json-null-shard", "json-inactive-shard", "json-odd-types"))]
+        must = [s for s in scens if (s["wit"] == "held" and s["cp"] == "valid") or (s["wit"] == "held" and s["cp"] in ("hash0", "hash5", "hash33") and s["data"] == "valid") or (s["cp"].startswith("size2") and s["data"] == "valid") or (s["feeder"] == "rekor" and (s["cp"].startswith("json-") or s["data"].startswith("json-")) and s["data"] in ("valid", "json-null", "json-odd") and s["cp"] in ("valid", "json-null-shard", "json-inactive-shard", "json-odd-types"))]
         rest = [s for s in scens if s not in must]
         rng.shuffle(rest)
         scens = must + rest[:220]
